@@ -90,8 +90,29 @@ def check_spec(spec: NetSpec, label, st: Stats, plan):
                 for sig, msg in consistency(spec, val, o, P, opts):
                     problems.append((sig, f"{sym} compact={compact} posinit={opts}: {msg} at {vlabel}",
                                      dict(case, val={f"{k[0]}.{k[1]}": v for k, v in val.items()})))
-    # the same network reached by editing another, already stepped network in place (non-initial state)
     base = [(l_, v) for l_, v in valgen.vectors(spec, 0)]
+    # every element called "x": names are free, the reported flows must not depend on them
+    for sym, compact in (("SX", 1), ("MX", 2)):
+        st.inc("transitions", 3)
+        case = {"spec": spec.describe(), "config": label, "P": P, "sym": sym, "compact": compact, "opts": False, "names": "all-equal"}
+        try:
+            keys = [f"n{i}" for i in range(spec.n)] + spec.link_keys() + [f"O{o.node}" for o in spec.origins] + \
+                   [f"D{d.node}" for d in spec.dests]
+            eng = env.casadi_engine(sym)
+            built = build(spec, names={k: "x" for k in keys})
+            built.net.step(engine=eng, **P)
+            F = eng.to_function(built.net, compact=compact, more_out=True, **P)
+            outs = eval_layout(F, Layout(spec, compact=compact, more_out=True), [v for _, v in base])
+        except Exception as e:  # noqa: BLE001
+            problems.append((f"C05/equal-names/exception/{exc_site(e)}/{type(e).__name__}", f"{sym} compact={compact}, all elements "
+                             f"named x: {exc_text(e)}", case))
+            continue
+        st.inc("executions", len(base))
+        for (vlabel, val), o in zip(base, outs):
+            for sig, msg in consistency(spec, val, o, P, False):
+                problems.append((sig, f"{sym} compact={compact}, all elements named x: {msg} at {vlabel}",
+                                 dict(case, val={f"{k[0]}.{k[1]}": v for k, v in val.items()})))
+    # the same network reached by editing another, already stepped network in place (non-initial state)
     for emode in ("links", "attachments", "replace"):
         sym, compact = plan["variants"][0]
         st.inc("transitions", 4)
